@@ -130,13 +130,23 @@ def coq_eval(vfile, timeout=900, mem_kb=12_000_000):
 
 
 # ------------------------------------------------------------------------------------------------ Go
+def harness_gomod(repo):
+    """go.mod of the harness = the repository's own requirements (so that module resolution never needs
+    the network) + the repository itself, replaced by the working tree at `repo`."""
+    src = (Path(repo) / "go.mod").read_text()
+    src = re.sub(r"^module .*$", "module pcverif", src, count=1, flags=re.M)
+    src = re.sub(r"^toolchain .*\n", "", src, flags=re.M)
+    src += "\nrequire github.com/f1bonacc1/process-compose v0.0.0\n"
+    src += "\nreplace github.com/f1bonacc1/process-compose => %s\n" % repo
+    return src
+
+
 def build_harness(name, race=False, timeout=900):
     """go build -tags verif ./cmd/<name> against the CURRENT tree of REPO. returns (ok, binary, log)"""
     with lock("go"):
         BUILD.mkdir(exist_ok=True)
         (BUILD / "bin").mkdir(exist_ok=True)
-        tmpl = (VERIF / "harness" / "go.mod.tmpl").read_text().replace("@REPO@", str(REPO))
-        (BUILD / "go.mod").write_text(tmpl)
+        (BUILD / "go.mod").write_text(harness_gomod(REPO))
         sums = (REPO / "go.sum").read_text()
         extra = VERIF / "harness" / "go.sum.extra"
         if extra.exists():
